@@ -25,6 +25,9 @@ lib/BoolLaws.vos lib/BoolLaws.vok lib/BoolLaws.required_vos: lib/BoolLaws.v lib/
 lib/Conv.vo lib/Conv.glob lib/Conv.v.beautified lib/Conv.required_vo: lib/Conv.v lib/Lib.vo lib/RLib.vo lib/Trig.vo
 lib/Conv.vio: lib/Conv.v lib/Lib.vio lib/RLib.vio lib/Trig.vio
 lib/Conv.vos lib/Conv.vok lib/Conv.required_vos: lib/Conv.v lib/Lib.vos lib/RLib.vos lib/Trig.vos
+lib/ELib.vo lib/ELib.glob lib/ELib.v.beautified lib/ELib.required_vo: lib/ELib.v lib/Lib.vo lib/RLib.vo
+lib/ELib.vio: lib/ELib.v lib/Lib.vio lib/RLib.vio
+lib/ELib.vos lib/ELib.vok lib/ELib.required_vos: lib/ELib.v lib/Lib.vos lib/RLib.vos
 lib/Lib.vo lib/Lib.glob lib/Lib.v.beautified lib/Lib.required_vo: lib/Lib.v 
 lib/Lib.vio: lib/Lib.v 
 lib/Lib.vos lib/Lib.vok lib/Lib.required_vos: lib/Lib.v 
@@ -64,6 +67,9 @@ proofs/C02_defs.vos proofs/C02_defs.vok proofs/C02_defs.required_vos: proofs/C02
 proofs/C04_conv.vo proofs/C04_conv.glob proofs/C04_conv.v.beautified proofs/C04_conv.required_vo: proofs/C04_conv.v lib/Lib.vo lib/RLib.vo lib/Trig.vo lib/Conv.vo lib/Spec.vo gen/Compute.vo gen/Tables.vo gen/Unfold.vo proofs/Spec_planar.vo proofs/Spec_spatial1.vo proofs/Spec_spatial2.vo proofs/Spec_lorentz.vo
 proofs/C04_conv.vio: proofs/C04_conv.v lib/Lib.vio lib/RLib.vio lib/Trig.vio lib/Conv.vio lib/Spec.vio gen/Compute.vio gen/Tables.vio gen/Unfold.vio proofs/Spec_planar.vio proofs/Spec_spatial1.vio proofs/Spec_spatial2.vio proofs/Spec_lorentz.vio
 proofs/C04_conv.vos proofs/C04_conv.vok proofs/C04_conv.required_vos: proofs/C04_conv.v lib/Lib.vos lib/RLib.vos lib/Trig.vos lib/Conv.vos lib/Spec.vos gen/Compute.vos gen/Tables.vos gen/Unfold.vos proofs/Spec_planar.vos proofs/Spec_spatial1.vos proofs/Spec_spatial2.vos proofs/Spec_lorentz.vos
+proofs/C08_sym.vo proofs/C08_sym.glob proofs/C08_sym.v.beautified proofs/C08_sym.required_vo: proofs/C08_sym.v lib/Lib.vo lib/RLib.vo lib/ELib.vo lib/Trig.vo lib/Conv.vo lib/Spec.vo gen/Compute.vo gen/Tables.vo gen/Unfold.vo proofs/Spec_planar.vo proofs/Spec_spatial1.vo proofs/Spec_spatial2.vo proofs/Spec_lorentz.vo
+proofs/C08_sym.vio: proofs/C08_sym.v lib/Lib.vio lib/RLib.vio lib/ELib.vio lib/Trig.vio lib/Conv.vio lib/Spec.vio gen/Compute.vio gen/Tables.vio gen/Unfold.vio proofs/Spec_planar.vio proofs/Spec_spatial1.vio proofs/Spec_spatial2.vio proofs/Spec_lorentz.vio
+proofs/C08_sym.vos proofs/C08_sym.vok proofs/C08_sym.required_vos: proofs/C08_sym.v lib/Lib.vos lib/RLib.vos lib/ELib.vos lib/Trig.vos lib/Conv.vos lib/Spec.vos gen/Compute.vos gen/Tables.vos gen/Unfold.vos proofs/Spec_planar.vos proofs/Spec_spatial1.vos proofs/Spec_spatial2.vos proofs/Spec_lorentz.vos
 proofs/C09_boost.vo proofs/C09_boost.glob proofs/C09_boost.v.beautified proofs/C09_boost.required_vo: proofs/C09_boost.v lib/Lib.vo lib/RLib.vo lib/Trig.vo lib/Conv.vo lib/Spec.vo gen/Compute.vo gen/Tables.vo gen/Unfold.vo proofs/Spec_planar.vo proofs/Spec_spatial1.vo proofs/Spec_spatial2.vo proofs/Spec_lorentz.vo
 proofs/C09_boost.vio: proofs/C09_boost.v lib/Lib.vio lib/RLib.vio lib/Trig.vio lib/Conv.vio lib/Spec.vio gen/Compute.vio gen/Tables.vio gen/Unfold.vio proofs/Spec_planar.vio proofs/Spec_spatial1.vio proofs/Spec_spatial2.vio proofs/Spec_lorentz.vio
 proofs/C09_boost.vos proofs/C09_boost.vok proofs/C09_boost.required_vos: proofs/C09_boost.v lib/Lib.vos lib/RLib.vos lib/Trig.vos lib/Conv.vos lib/Spec.vos gen/Compute.vos gen/Tables.vos gen/Unfold.vos proofs/Spec_planar.vos proofs/Spec_spatial1.vos proofs/Spec_spatial2.vos proofs/Spec_lorentz.vos
@@ -130,6 +136,9 @@ props/C05.vos props/C05.vok props/C05.required_vos: props/C05.v lib/Lib.vos lib/
 props/C06.vo props/C06.glob props/C06.v.beautified props/C06.required_vo: props/C06.v model/Ctor.vo
 props/C06.vio: props/C06.v model/Ctor.vio
 props/C06.vos props/C06.vok props/C06.required_vos: props/C06.v model/Ctor.vos
+props/C08.vo props/C08.glob props/C08.v.beautified props/C08.required_vo: props/C08.v lib/Lib.vo lib/RLib.vo lib/ELib.vo lib/Spec.vo gen/Compute.vo gen/Tables.vo proofs/C08_sym.vo
+props/C08.vio: props/C08.v lib/Lib.vio lib/RLib.vio lib/ELib.vio lib/Spec.vio gen/Compute.vio gen/Tables.vio proofs/C08_sym.vio
+props/C08.vos props/C08.vok props/C08.required_vos: props/C08.v lib/Lib.vos lib/RLib.vos lib/ELib.vos lib/Spec.vos gen/Compute.vos gen/Tables.vos proofs/C08_sym.vos
 props/C09.vo props/C09.glob props/C09.v.beautified props/C09.required_vo: props/C09.v lib/Lib.vo lib/RLib.vo lib/Spec.vo gen/Compute.vo gen/Tables.vo proofs/C09_boost.vo proofs/C09_boost2.vo
 props/C09.vio: props/C09.v lib/Lib.vio lib/RLib.vio lib/Spec.vio gen/Compute.vio gen/Tables.vio proofs/C09_boost.vio proofs/C09_boost2.vio
 props/C09.vos props/C09.vok props/C09.required_vos: props/C09.v lib/Lib.vos lib/RLib.vos lib/Spec.vos gen/Compute.vos gen/Tables.vos proofs/C09_boost.vos proofs/C09_boost2.vos
